@@ -568,10 +568,9 @@ pub fn compare_state(l: &Locale, m: &Loc) -> Vec<Fail> {
     if rebuilt != l.id {
         out.push(fail("representation", format!("from_parts(getters) != value: {:?} vs {:?}", rebuilt, l.id)));
     }
-    let dbg = format!("{:?}", l.id);
-    if dbg.contains("variants: Some([])") {
-        out.push(fail("representation", format!("empty variant list stored as Some([]): {}", dbg)));
-    }
+    // (an earlier clause also inspected the Debug text for `variants: Some([])`; that is an
+    // implementation detail the properties do not state - the observable consequence, inequality
+    // with the value rebuilt from its own parts, is what is checked above)
     out
 }
 
